@@ -215,7 +215,7 @@ def ref_scenario(sc, steps, want_trace=False):
             elif k == 'not_active':
                 ok = a[1] not in it.configuration
             elif k == 'fired':
-                ok = any(e.name == a[1] and all(getattr(e, p, None) == v for p, v in a[2]) for e in sent)
+                ok = any(e.name == a[1] and all(e.data.get(p, None) == v for p, v in a[2]) for e in sent)
             elif k == 'not_fired':
                 ok = not any(e.name == a[1] for e in sent)
             elif k == 'no_event':
@@ -382,6 +382,14 @@ class C19(Prop):
         template = None
         if rnd.random() < 0.1:
             sc, template = history_template(rnd)
+        under = rnd.random() < 0.25
+        if under:
+            # events sent with a parameter whose name starts with an underscore (`_k`): a parameter like any other
+            for o in [sc.state_for(n) for n in sc.states] + list(sc.transitions):
+                for attr in ('on_entry', 'on_exit', 'action'):
+                    code = getattr(o, attr, None)
+                    if code and "send('" in code:
+                        setattr(o, attr, code.replace(", v=", ", _k=7, v="))
         if rnd.random() < 0.3:
             # a variable that is defined and holds None (`nil`), and one that is reset to None now and then
             root = sc.state_for(sc.root)
@@ -444,6 +452,8 @@ class C19(Prop):
                             if rnd.random() < 0.3:
                                 ps.append(['nosuch', 1])
                             rnd.shuffle(ps)
+                        if under and rnd.random() < 0.4:
+                            ps = [['_k', rnd.choice([7, 7, 8])]]
                         a = [k, rnd.choice(('out', 'o2', 'e', 'n0')), ps]
                         if rnd.random() < 0.5:
                             # a fact that holds: one of the events really sent, by preference one that
@@ -455,7 +465,7 @@ class C19(Prop):
                             if pool:
                                 e = rnd.choice(pool)
                                 data = [[kk, vv] for kk, vv in e.data.items()
-                                        if isinstance(vv, (int, bool)) and kk in ('v', 'b', 'delay')]
+                                        if isinstance(vv, (int, bool)) and kk in ('v', 'b', 'delay', '_k')]
                                 rnd.shuffle(data)
                                 a = [k, e.name, data[:rnd.randint(1, max(1, len(data)))]]
                     elif k == 'not_fired':
